@@ -379,7 +379,7 @@ def gen_case(rng):
     events = []
     t = 0
     for _ in range(rng.randrange(0, 7)):
-        t += rng.choice([0, 500_000, 1_000_000, 3_000_000])
+        t += rng.choice([0, 500_003, 1_000_007, 3_000_011])      # never a whole timer duration apart
         bi = rng.randrange(len(blocks))
         kind = blocks[bi]['kind']
         if kind == 'input':
@@ -401,7 +401,7 @@ def gen_case(rng):
         extra['edzed-custom'] = 'keep me'
     if rng.random() < 0.3:
         extra['edzed-stop-time'] = float(EPOCH - 100)
-    restarts = [[rng.randrange(0, 12), rng.choice([0, 1_000_000, 5_000_000, 100_000_000, 2_000_000_000])]
+    restarts = [[rng.randrange(0, 12), rng.choice([137, 1_000_137, 5_000_137, 100_000_137, 2_000_000_137])]
                 for _ in range(rng.randrange(1, 4))]
     failed = rng.choice(['start', 'task']) if rng.random() < 0.12 else False
     if failed:
@@ -429,7 +429,11 @@ def check(run):
                 "events during the restart. Non-trivial = >= 3 steps and >= 1 restart.")
     run.assumptions = ["the storage is an in-memory mapping (durability of a backend is out of scope)",
                        "FSM expiration times are compared at millisecond granularity (the conversion "
-                       "between loop and wall clock reads the clock three times)"]
+                       "between loop and wall clock reads the clock three times)",
+                       "external events never coincide with the expiry of a timer started by an earlier event "
+                       "(event distances are not whole seconds); "
+                       "a restart never happens exactly (to the microsecond) at an expiration instant: the "
+                       "down times end in ...137 us (the clock reads of the restart cost microseconds)"]
     cases = [gen_case(run.rng) for _ in range(300 if run.tier == 'quick' else 4000)]
     for c in cases:
         for b in c['blocks']:
